@@ -31,7 +31,28 @@ func skipKeyword(line, keyword string) (string, bool) {
 // the end of the line or by a character that cannot continue a name (so that looking for `a`
 // does not stop at the declaration of `ab`).
 func declares(line, keyword, name string) bool {
-	afterKeyword, found := skipKeyword(strings.TrimSpace(line), keyword)
+	return declaringSegment(line, keyword, name) >= 0
+}
+
+// declaringSegment returns the offset in line of the part that declares name with keyword, or -1. The lines
+// handed in are split at line feeds; a carriage return ends a line for the DSL lexer as well, so a
+// declaration may also stand behind one.
+func declaringSegment(line, keyword, name string) int {
+	offset := 0
+
+	for _, segment := range strings.Split(line, "\r") {
+		if segmentDeclares(segment, keyword, name) {
+			return offset
+		}
+
+		offset += len(segment) + 1
+	}
+
+	return -1
+}
+
+func segmentDeclares(segment, keyword, name string) bool {
+	afterKeyword, found := skipKeyword(strings.TrimSpace(segment), keyword)
 	if !found {
 		return false
 	}
@@ -95,9 +116,19 @@ func ConstructLineAndColumnData(lines []string, lineIndex int, symbol string) (S
 	// the declared name stands behind the keyword: do not find it inside the keyword itself
 	// (`type e`, `define d`), nor a keyword used as a name (`type type`)
 	searchFrom := 0
+	keywords := []string{"extend type", "type", "condition", "define"}
 
-	for _, keyword := range []string{"extend type", "type", "condition", "define"} {
-		if afterKeyword, found := skipKeyword(rawLine, keyword); found {
+	// the declaration may stand behind a carriage return inside the line: start at that part of the line
+	for _, keyword := range keywords {
+		if offset := declaringSegment(rawLine, keyword, symbol); offset > 0 {
+			searchFrom = offset
+
+			break
+		}
+	}
+
+	for _, keyword := range keywords {
+		if afterKeyword, found := skipKeyword(rawLine[searchFrom:], keyword); found {
 			searchFrom = len(rawLine) - len(afterKeyword)
 
 			break
